@@ -34,7 +34,7 @@ def n_trace(ctx):
     if "r" in _tr:
         return _tr["r"]
     ex = waterlib.prepare_examples(ctx)
-    nl, endy = (17, 1995) if ctx.thorough else (14, 1982)    # the same scenario lines as waterlib.run_trace
+    nl, endy = (18, 1995) if ctx.thorough else (15, 1982)    # the same scenario lines as waterlib.run_trace
     lf = os.path.join(ctx.work, "ntrace_lines.txt")
     with open(lf, "w") as f:
         f.write("\n".join(l + " LeachingDepth=20" for l in waterlib.trace_lines(ctx, nl, endy)) + "\n")
@@ -102,6 +102,7 @@ def correspond(ctx):
     ctx.extra["traced_days_with_an_unstable_substep"] = max([x.get("unstable_days", 0) for x in runs_] or [0])
     ctx.extra["traced_days_with_an_unstable_substep_before_the_last"] = max([x.get("unstable_early_days", 0) for x in runs_] or [0])
     ctx.extra["nitro_calls_of_later_substeps_checked_for_bookings"] = max([x.get("later_substep_nitro_calls", 0) for x in runs_] or [0])
+    ctx.extra["resprouting_events_of_a_permanent_crop_checked"] = max([x.get("resprouting_events", 0) for x in runs_] or [0])
     ctx.extra["max_abs_n_residual"] = max([abs(d["res"]) for d in days] or [0.0])
     ctx.extra["traced_days_clamp_free"] = sum(1 for d in days if d["clean"])
     c.samples = [{k: (v if not isinstance(v, list) else v[:4]) for k, v in x["in"].items()} for x in allc[:2] if x["k"] == "nmove"]
